@@ -30,6 +30,7 @@ type c09Case struct {
 	Insps    []c09Insp `json:"inspections"`
 	StepFail bool      `json:"step_fail"`
 	LineNorm bool      `json:"line_norm"`
+	StepAlgs string    `json:"step_algs"` // sha256 | sha512 | both : what the functionaries of the steps recorded
 }
 
 func c09Files(w hx.World) map[string]string {
@@ -75,7 +76,8 @@ func c09Gen(t *rapid.T) c09Case {
 	o.MaxInspections = 0
 	o.MaxSteps = 2
 	w := hx.GenWorld(t, o)
-	c := c09Case{World: w, LineNorm: rapid.Bool().Draw(t, "linenorm"), StepFail: rapid.IntRange(0, 7).Draw(t, "stepfail") == 0}
+	c := c09Case{World: w, LineNorm: rapid.Bool().Draw(t, "linenorm"), StepFail: rapid.IntRange(0, 7).Draw(t, "stepfail") == 0,
+		StepAlgs: rapid.SampledFrom([]string{"sha256", "sha256", "sha256", "sha512", "both"}).Draw(t, "stepalgs")}
 	files := sortedFileKeys(c09Files(w))
 	pick := func(label string) string { return rapid.SampledFrom(files).Draw(t, label) }
 	nEdits := rapid.SampledFrom([]int{0, 0, 0, 1, 1, 2}).Draw(t, "nedits")
@@ -105,7 +107,7 @@ func c09Gen(t *rapid.T) c09Case {
 	nInsp := rapid.IntRange(0, 3).Draw(t, "ninsp")
 	for i := 0; i < nInsp; i++ {
 		in := c09Insp{Name: fmt.Sprintf("insp%d", i)}
-		switch rapid.IntRange(0, 11).Draw(t, "behaviour") {
+		switch rapid.IntRange(0, 13).Draw(t, "behaviour") {
 		case 0:
 			in.Ops = []string{"w:insp-" + in.Name + ".out:checked"}
 		case 1:
@@ -118,6 +120,22 @@ func c09Gen(t *rapid.T) c09Case {
 			in.Broken = rapid.SampledFrom([]string{"missing", "empty", "directory"}).Draw(t, "broken")
 		case 5:
 			in.Ops = []string{"w:insp-" + in.Name + ".out:x", "w:intruder-" + in.Name + ":y"}
+		case 6, 7:
+			// rewrite an existing file with other content of the SAME length (size and, within the
+			// same second, the modification time stay as they were)
+			f := pick("rewrite")
+			content := c09Files(w)[f]
+			if len(content) > 0 {
+				nb := []byte(content)
+				for k := range nb {
+					if nb[k] == 'e' {
+						nb[k] = '3'
+					} else if nb[k] != '\n' && k%5 == 0 {
+						nb[k] = 'X'
+					}
+				}
+				in.Ops = []string{"w:" + f + ":" + string(nb)}
+			}
 		}
 		rule := func(label string) [][]string {
 			switch rapid.IntRange(0, 8).Draw(t, label) {
@@ -225,7 +243,42 @@ func substRules(r [][]string, runDir string) [][]string {
 	return out
 }
 
+// c09WithAlgs re-records the step links with the given algorithms (the functionaries' choice).
+func c09WithAlgs(w hx.World, algs string) hx.World {
+	if algs == "" || algs == "sha256" {
+		return w
+	}
+	contents := map[string]string{} // digest -> nothing known; recompute from the evolving tree is not possible here:
+	_ = contents
+	links := append([]hx.WMetaFile{}, w.Links...)
+	conv := func(a hx.MArtifacts) hx.MArtifacts {
+		out := hx.MArtifacts{}
+		for p, h := range a {
+			nh := map[string]string{}
+			// the sha512 entry is derived from the sha256 one: all that matters to the rules is that
+			// equal files have equal hash objects and different files different ones
+			if algs == "both" {
+				nh["sha256"] = h["sha256"]
+			}
+			nh["sha512"] = hx.Sha256Hex("512:"+h["sha256"]) + hx.Sha256Hex("512b:"+h["sha256"])
+			out[p] = nh
+		}
+		return out
+	}
+	for i, f := range links {
+		if f.Meta.Link == nil {
+			continue
+		}
+		l := *f.Meta.Link
+		l.Materials, l.Products = conv(l.Materials), conv(l.Products)
+		links[i].Meta = hx.MMeta{Link: &l}
+	}
+	w.Links = links
+	return w
+}
+
 func c09Run(c c09Case, r *hx.Rec) error {
+	c.World = c09WithAlgs(c.World, c.StepAlgs)
 	w := c.World
 	lay := w.Layout.Meta.Layout
 	if lay == nil || len(lay.Steps) == 0 {
@@ -278,6 +331,7 @@ func c09Run(c c09Case, r *hx.Rec) error {
 	exp := c09Model(c, root+"/run/product")
 	out := b.Verify()
 	r.Label("entry=%s", w.Entry)
+	r.Label("step_algs=%s", c.StepAlgs)
 	r.Label("inspections=%d", len(c.Insps))
 	r.Label("expect_accept=%v", exp.accept)
 	if len(c.DirEdits) > 0 {
